@@ -49,9 +49,10 @@ PROBES = {
     'C01': ['cell_occupied_in_one_array_only', 'particle_on_cell_face', 'degenerate_extent', 'cross_array_pair',
             'cache_lazy_fill', 'cache_fill_simulated_tid', 'cache_find_all_threads_gt1', 'implicit_context_switch', 'reorder_then_query',
             'empty_array_present', 'coincident_points', 'far_from_origin', 'h_decades', 'refused_too_many_cells',
-            'band_pairs', 'added_particles', 'removed_particles', 'cache_toggled', 'cached_and_uncached_queries_share_output_array'],
+            'band_pairs', 'added_particles', 'removed_particles', 'cache_toggled', 'cached_and_uncached_queries_share_output_array', 'nonlocal_tags_present'],
     'C17': ['reorder_with_nonlocal_tags', 'reorder_strided', 'repeated_reorder', 'reorder_then_query', 'reorder_empty_array',
-            'solver_reorder_then_query_without_update', 'periodic_domain', 'reorder_with_domain_ghosts'],
+            'solver_reorder_then_query_without_update', 'periodic_domain', 'reorder_with_domain_ghosts',
+            'property_added_after_nnps_was_built', 'lb_props_restricted'],
 }
 
 
@@ -128,6 +129,9 @@ def gen(t, prop, tier):
     hvar = t.wchoice([('const', 4), ('mild', 4), ('decades', 2)])
     fixed_h = int(hvar == 'const' and t.bool(0.3))
     arrays = []
+    # (C01) some arrays hold Remote / Ghost tagged particles, as a parallel run or a domain manager leaves them behind:
+    # they are sources and destinations like any other particle
+    tagged = (prop == 'C01' and t.bool(0.3))
     for a in range(narr):
         n = t.wchoice([(0, 1), (1, 1), (2, 1), (5, 2), (12, 3), (40, 4), (90, 2), (150, 1)])
         kind = t.wchoice([('uniform', 5), ('clustered', 3), ('lattice', 3), ('collinear', 1), ('coincident', 1)])
@@ -140,7 +144,7 @@ def gen(t, prop, tier):
                 h = hbase * t.choice([1.0, 0.8, 1.2, 1.5, 0.6])
             else:
                 h = hbase * t.choice([1.0, 1.0, 0.3, 3.0, 0.1, 8.0])
-            rows.append([p[0], p[1], p[2], h, t.wchoice([(0, 8), (1, 1), (2, 1)]) if prop == 'C17' else 0])
+            rows.append([p[0], p[1], p[2], h, t.wchoice([(0, 8), (1, 1), (2, 1)]) if (prop == 'C17' or tagged) else 0])
         arrays.append(dict(kind=kind, pts=rows))
     if not any(a['pts'] for a in arrays):
         arrays[0]['pts'] = [[origin[0], origin[1] if dim > 1 else 0.0, origin[2] if dim > 2 else 0.0, hbase, 0]]
@@ -160,7 +164,8 @@ def gen(t, prop, tier):
     nops = t.choice([0, 1, 2, 4, 6, 10])
     for _ in range(nops):
         if prop == 'C17':
-            k = t.wchoice([('reorder', 6), ('move', 3), ('add', 1), ('remove', 1), ('set_h', 1), ('toggle_cache', 1), ('solver_reorder', 3)])
+            k = t.wchoice([('reorder', 6), ('move', 3), ('add', 1), ('remove', 1), ('set_h', 1), ('toggle_cache', 1), ('solver_reorder', 3),
+                           ('late_prop', 1), ('lb_props', 1)])
         else:
             k = t.wchoice([('move', 5), ('set_h', 2 if not fixed_h else 0), ('add', 3), ('remove', 3), ('toggle_cache', 2),
                            ('reorder', 2), ('noop', 1)])
@@ -442,6 +447,8 @@ def execute(sc, prop):
     narr = len(w.particles)
     if narr > 1:
         probe('cross_array_pair')
+    if any(r[4] != 0 for r in allp):
+        probe('nonlocal_tags_present')
     refused = False
     dom = None
     hcap = None
@@ -681,6 +688,20 @@ def execute(sc, prop):
             if w.viol:
                 break
             # Solver.reorder_particles follows the permutation with a domain and nnps update
+        elif k == 'late_prop':
+            # a property added after the neighbour structure was built (from a callback, for post-processing)
+            name = 'late%d' % (oi % 3)
+            if name in pa.properties:
+                continue
+            stride = 1 + (oi % 2) * 2
+            ids_now = _arr(pa, 'ident')
+            pa.add_property(name, type='double', stride=stride,
+                            data=(np.repeat(ids_now, stride) * 0.5 + np.tile(np.arange(float(stride)), len(ids_now))) if n else None)
+            probe('property_added_after_nnps_was_built')
+        elif k == 'lb_props':
+            # the load-balancing property list (what is exchanged between processes) has nothing to do with re-ordering
+            pa.set_lb_props(['x', 'y', 'z', 'h'])
+            probe('lb_props_restricted')
         elif k == 'solver_reorder':
             if cls not in REORDER:
                 continue
